@@ -161,6 +161,7 @@ class Program:
         self.classes: dict[str, ClassInfo] = {}
         self.ext_modules: set[str] = set()     # compiled modules (pyx)
         self._load()
+        self._normalise_sources()
         self._bind()
         self._link_classes()
         self._tree_cache: dict = {}
@@ -194,6 +195,123 @@ class Program:
                 except SyntaxError as e:
                     raise AnalysisError(f"cannot parse {rel}: {e}") from e
                 self.modules[mod] = ModuleInfo(mod, full, rel, tree, src, is_pkg)
+
+    # ---- source idioms read as the plain code they stand for ---------------
+    def _normalise_sources(self):
+        """(1) `with CM(a, b): BODY` where CM is a class of the package whose
+        __init__ only stores its parameters, whose __enter__ returns self and
+        whose __exit__ is `if exc_type is None: STMTS; return False` is read as
+        `BODY; STMTS[self.<field> := argument]` (a bump-on-success guard).
+        (2) `x = property(_get_x, _set_x)` in a class body is read as the
+        decorator form: the two functions become the getter and setter `x`."""
+        import copy
+        cms = {}
+        for m in self.modules.values():
+            for cn in m.tree.body:
+                if not isinstance(cn, ast.ClassDef) or cn.bases:
+                    continue
+                fns = {f.name: f for f in cn.body if isinstance(f, ast.FunctionDef)}
+                if set(fns) != {"__init__", "__enter__", "__exit__"}:
+                    continue
+                init, ent, ex = fns["__init__"], fns["__enter__"], fns["__exit__"]
+                params = [a.arg for a in init.args.args[1:]]
+                fields = {}
+                ok = not init.args.vararg and not init.args.kwarg and not init.args.kwonlyargs
+                for st in init.body:
+                    if isinstance(st, ast.Expr) and isinstance(st.value, ast.Constant):
+                        continue
+                    if isinstance(st, ast.Assign) and len(st.targets) == 1 and \
+                            isinstance(st.targets[0], ast.Attribute) and \
+                            isinstance(st.targets[0].value, ast.Name) and \
+                            st.targets[0].value.id == "self" and \
+                            isinstance(st.value, ast.Name) and st.value.id in params:
+                        fields[st.targets[0].attr] = st.value.id
+                    else:
+                        ok = False
+                eb = [st for st in ent.body if not (isinstance(st, ast.Expr) and
+                                                    isinstance(st.value, ast.Constant))]
+                ok = ok and len(eb) == 1 and isinstance(eb[0], ast.Return) and \
+                    isinstance(eb[0].value, ast.Name) and eb[0].value.id == "self"
+                xb = [st for st in ex.body if not (isinstance(st, ast.Expr) and
+                                                   isinstance(st.value, ast.Constant))]
+                exc = ex.args.args[1].arg if len(ex.args.args) > 1 else None
+                stmts = None
+                if ok and xb and isinstance(xb[0], ast.If) and not xb[0].orelse and \
+                        ast.unparse(xb[0].test) == f"{exc} is None" and all(
+                            isinstance(r, ast.Return) and (
+                                r.value is None or (isinstance(r.value, ast.Constant) and
+                                                    not r.value.value))
+                            for r in xb[1:]):
+                    stmts = xb[0].body
+                if ok and stmts is not None:
+                    cms[cn.name] = (params, fields, stmts)
+        prog = self
+
+        class Inline(ast.NodeTransformer):
+            def visit_With(self, n):
+                self.generic_visit(n)
+                if len(n.items) != 1 or n.items[0].optional_vars is not None:
+                    return n
+                c = n.items[0].context_expr
+                if not (isinstance(c, ast.Call) and isinstance(c.func, ast.Name) and
+                        c.func.id in cms and not c.keywords):
+                    return n
+                params, fields, stmts = cms[c.func.id]
+                if len(c.args) != len(params) or any(
+                        not isinstance(a, (ast.Name, ast.Constant)) for a in c.args):
+                    return n
+                amap = dict(zip(params, c.args))
+
+                class Sub(ast.NodeTransformer):
+                    def visit_Attribute(self, a):
+                        if isinstance(a.value, ast.Name) and a.value.id == "self" and \
+                                a.attr in fields:
+                            return ast.copy_location(copy.deepcopy(amap[fields[a.attr]]), n)
+                        self.generic_visit(a)
+                        return a
+                tail = [Sub().visit(copy.deepcopy(st)) for st in stmts]
+                for t in tail:
+                    for x in ast.walk(t):
+                        ast.copy_location(x, n.body[-1])
+                    ast.fix_missing_locations(t)
+                return n.body + tail
+
+        for m in self.modules.values():
+            if cms and any(isinstance(w, ast.With) for w in ast.walk(m.tree)):
+                m.tree = Inline().visit(m.tree)
+                ast.fix_missing_locations(m.tree)
+            # property(getter, setter)
+            for cn in ast.walk(m.tree):
+                if not isinstance(cn, ast.ClassDef):
+                    continue
+                fns = {f.name: f for f in cn.body if isinstance(f, ast.FunctionDef)}
+                newbody = []
+                for st in cn.body:
+                    if isinstance(st, ast.Assign) and len(st.targets) == 1 and \
+                            isinstance(st.targets[0], ast.Name) and \
+                            isinstance(st.value, ast.Call) and \
+                            isinstance(st.value.func, ast.Name) and \
+                            st.value.func.id == "property" and not st.value.keywords and \
+                            1 <= len(st.value.args) <= 2 and all(
+                                isinstance(a, ast.Name) and a.id in fns
+                                for a in st.value.args):
+                        pname = st.targets[0].id
+                        g = copy.deepcopy(fns[st.value.args[0].id])
+                        g.name = pname
+                        g.decorator_list = [ast.Name(id="property", ctx=ast.Load())]
+                        newbody.append(ast.copy_location(g, fns[st.value.args[0].id]))
+                        if len(st.value.args) == 2:
+                            w = copy.deepcopy(fns[st.value.args[1].id])
+                            w.name = pname
+                            w.decorator_list = [ast.Attribute(
+                                value=ast.Name(id=pname, ctx=ast.Load()), attr="setter",
+                                ctx=ast.Load())]
+                            newbody.append(ast.copy_location(w, fns[st.value.args[1].id]))
+                        continue
+                    newbody.append(st)
+                if len(newbody) != len(cn.body):
+                    cn.body = newbody
+                    ast.fix_missing_locations(cn)
 
     def _abs_module(self, m: ModuleInfo, level: int, name: Optional[str]) -> str:
         if level == 0:
@@ -249,6 +367,98 @@ class Program:
                             m.names.setdefault(t.id, ("value", st.value))
         visit_body(m.tree.body)
 
+    # -- compile-time constants (class-level / module-level tables of names)
+    def static_value(self, e, cls=None, module=None, env=None, _depth=0,
+                     _classnode=None):
+        """Python value of an expression built from literals, `+` on strings and
+        tuples, and names of class-level / module-level constants; UNKNOWN
+        otherwise.  `cls` is a ClassInfo (its MRO is searched for self.X / cls.X /
+        bare names inside the class body), `_classnode` a ClassDef under
+        construction."""
+        if _depth > 12:
+            return UNKNOWN
+        rec = lambda x: self.static_value(x, cls, module, env, _depth + 1, _classnode)
+        if isinstance(e, ast.Constant):
+            return e.value if isinstance(e.value, (str, int, float, bool, type(None))) \
+                else UNKNOWN
+        if isinstance(e, (ast.Tuple, ast.List)):
+            out = []
+            for x in e.elts:
+                if isinstance(x, ast.Starred):
+                    v = rec(x.value)
+                    if not isinstance(v, tuple):
+                        return UNKNOWN
+                    out.extend(v)
+                else:
+                    v = rec(x)
+                    if v is UNKNOWN:
+                        return UNKNOWN
+                    out.append(v)
+            return tuple(out)
+        if isinstance(e, ast.BinOp) and isinstance(e.op, ast.Add):
+            a, b = rec(e.left), rec(e.right)
+            if isinstance(a, str) and isinstance(b, str):
+                return a + b
+            if isinstance(a, tuple) and isinstance(b, tuple):
+                return a + b
+            return UNKNOWN
+        if isinstance(e, ast.JoinedStr):
+            parts = []
+            for x in e.values:
+                if isinstance(x, ast.Constant):
+                    parts.append(str(x.value))
+                elif isinstance(x, ast.FormattedValue) and x.format_spec is None and \
+                        x.conversion == -1:
+                    v = rec(x.value)
+                    if not isinstance(v, str):
+                        return UNKNOWN
+                    parts.append(v)
+                else:
+                    return UNKNOWN
+            return "".join(parts)
+
+        def class_const(nodes, name):
+            for cn in nodes:
+                for st in cn.body:
+                    if isinstance(st, ast.Assign) and len(st.targets) == 1 and \
+                            isinstance(st.targets[0], ast.Name) and \
+                            st.targets[0].id == name:
+                        return st.value, cn
+                    if isinstance(st, ast.AnnAssign) and isinstance(st.target, ast.Name) \
+                            and st.target.id == name and st.value is not None:
+                        return st.value, cn
+            return None, None
+
+        def class_nodes(c):
+            try:
+                return [k.node for k in c.mro]
+            except Exception:
+                return [c.node]
+        if isinstance(e, ast.Name):
+            if env is not None and e.id in env:
+                v = env[e.id]
+                return v if isinstance(v, (str, int, float, bool, type(None))) else UNKNOWN
+            nodes = ([_classnode] if _classnode is not None else [])
+            v, cn = class_const(nodes, e.id)
+            if v is not None:
+                return self.static_value(v, cls, module, None, _depth + 1, cn)
+            if module is not None:
+                ent = module.names.get(e.id)
+                if ent and ent[0] == "value" and ent[1] is not None:
+                    return self.static_value(ent[1], None, module, None, _depth + 1)
+            return UNKNOWN
+        if isinstance(e, ast.Attribute) and isinstance(e.value, ast.Name):
+            owner = None
+            if e.value.id in ("self", "cls") and cls is not None:
+                owner = cls
+            elif e.value.id in getattr(self, "classes", {}):
+                owner = self.classes[e.value.id]
+            if owner is not None:
+                v, cn = class_const(class_nodes(owner), e.attr)
+                if v is not None:
+                    return self.static_value(v, owner, owner.module, None, _depth + 1, cn)
+        return UNKNOWN
+
     def _make_class(self, m: ModuleInfo, node: ast.ClassDef) -> ClassInfo:
         ci = ClassInfo(node.name, node, m, base_exprs=list(node.bases))
         for st in node.body:
@@ -278,6 +488,11 @@ class Program:
                             try:
                                 attrs = tuple(ast.literal_eval(kw.value))
                             except Exception as e:
+                                sv = self.static_value(kw.value, None, m, None, 0, node)
+                                if isinstance(sv, tuple) and all(
+                                        isinstance(x, str) for x in sv):
+                                    attrs = sv
+                                    continue
                                 raise AnalysisError(
                                     f"{m.relpath}:{d.lineno} non-literal attrs "
                                     f"in @Cached.method") from e
@@ -744,10 +959,25 @@ def _returns(t) -> bool:
 # constants
 
 UNKNOWN = object()
+_HASHABLE_CONST = (type(None), bool, str, int, float)
 
 
-def const_of(node, env):
-    """Constant value of an expression under env, or UNKNOWN."""
+def const_of(node, env, b=None):
+    """Constant value of an expression under env, or UNKNOWN.  With a builder
+    `b`, class-level / module-level constants and `+` on strings are folded."""
+    if b is not None and isinstance(node, (ast.Attribute, ast.BinOp, ast.JoinedStr,
+                                           ast.Name)) and \
+            not (isinstance(node, ast.Name) and node.id in env):
+        # only *constants by convention* (UPPER_CASE class / module names holding
+        # strings) are folded: an instance attribute may shadow anything else
+        for a in ast.walk(node):
+            if isinstance(a, ast.Attribute) and a.attr != a.attr.upper():
+                return UNKNOWN
+            if isinstance(a, ast.Name) and a.id not in env and a.id != a.id.upper() \
+                    and a.id not in ("self", "cls") and a.id not in b.p.classes:
+                return UNKNOWN
+        v = b.p.static_value(node, b.cls, b.f.module, env)
+        return v if (v is not UNKNOWN and isinstance(v, str)) else UNKNOWN
     if isinstance(node, ast.Constant):
         v = node.value
         if v is None or isinstance(v, (bool, str)):
@@ -778,15 +1008,15 @@ class _GetattrToAttr(ast.NodeTransformer):
         self.generic_visit(n)
         if isinstance(n.func, ast.Name) and n.func.id == "getattr" and \
                 len(n.args) == 2 and self.b.is_self(n.args[0]) and \
-                const_of(n.args[1], self.b.env) == self.only:
+                const_of(n.args[1], self.b.env, self.b) == self.only:
             return ast.copy_location(ast.Attribute(value=n.args[0], attr=self.only,
                                                    ctx=ast.Load()), n)
         if isinstance(n.func, ast.Name) and n.func.id == "getattr" and \
                 len(n.args) == 3 and self.b.is_self(n.args[0]) and \
-                isinstance(const_of(n.args[1], self.b.env), str):
+                isinstance(const_of(n.args[1], self.b.env, self.b), str):
             # normalise the name argument to a literal (K2 reads it syntactically)
             n.args[1] = ast.copy_location(ast.Constant(
-                value=const_of(n.args[1], self.b.env)), n.args[1])
+                value=const_of(n.args[1], self.b.env, self.b)), n.args[1])
         return n
 
 
@@ -921,12 +1151,12 @@ class _Builder:
                 return False
             return UNKNOWN
         if isinstance(test, ast.Compare) and len(test.ops) == 1:
-            l = const_of(test.left, self.env)
-            r = const_of(test.comparators[0], self.env)
+            l = const_of(test.left, self.env, self)
+            r = const_of(test.comparators[0], self.env, self)
             op = test.ops[0]
             if isinstance(op, (ast.In, ast.NotIn)) and l is not UNKNOWN and \
                     isinstance(test.comparators[0], (ast.List, ast.Tuple, ast.Set)):
-                elts = [const_of(e, self.env) for e in test.comparators[0].elts]
+                elts = [const_of(e, self.env, self) for e in test.comparators[0].elts]
                 if all(e is not UNKNOWN for e in elts):
                     res = l in elts
                     return res if isinstance(op, ast.In) else not res
@@ -1003,7 +1233,7 @@ class _Builder:
                 env[pn] = c
         for pn, v in list(zip(params, call.args)) + [(k.arg, k.value)
                                                      for k in call.keywords]:
-            c = const_of(v, self.env)
+            c = const_of(v, self.env, self)
             if c is UNKNOWN:
                 env.pop(pn, None)
             else:
@@ -1279,7 +1509,7 @@ class _Builder:
                     self.cls is not None and \
                     self.p.lookup(self.cls, value.attr) is not None:
                 self.fnalias[target.id] = value.attr
-            c = const_of(value, self.env) if value is not None else UNKNOWN
+            c = const_of(value, self.env, self) if value is not None else UNKNOWN
             if c is UNKNOWN and isinstance(value, ast.Call):
                 c = self.const_call(value)
             if c is not UNKNOWN and isinstance(c, _HASHABLE_CONST):
@@ -1305,7 +1535,7 @@ class _Builder:
                                                 [value] if value is not None else [],
                                                 [], via="prop-set")
                 cell = self.cellname(attr)
-                c = const_of(value, self.env) if value is not None else UNKNOWN
+                c = const_of(value, self.env, self) if value is not None else UNKNOWN
                 if c is not UNKNOWN:
                     return self.ev("assign", cell, st, const=c)
                 # self.k = self.k + c  /  c + self.k  is the spelled-out bump
@@ -1319,7 +1549,7 @@ class _Builder:
                                  self.objalias.get(a.id) == cell):
                             same = True
                         if same:
-                            k = const_of(b, self.env)
+                            k = const_of(b, self.env, self)
                             if isinstance(k, (int, float)) and \
                                     not isinstance(k, bool) and k > 0:
                                 return self.ev("bump", cell, st, amount=k)
@@ -1416,7 +1646,7 @@ class _Builder:
         target = st.target
         if isinstance(target, ast.Attribute) and self.is_self(target.value):
             cell = self.cellname(target.attr)
-            c = const_of(st.value, self.env)
+            c = const_of(st.value, self.env, self)
             if isinstance(st.op, ast.Add) and isinstance(c, (int, float)) \
                     and not isinstance(c, bool) and c > 0:
                 return self.ev("bump", cell, st, amount=c)
@@ -1611,7 +1841,7 @@ class _Builder:
                 self.is_self(e.args[0]):
             # setattr(self, "<k>", v) with a constant (or constant-specialised) name
             # is the assignment self.<k> = v
-            nm = const_of(e.args[1], self.env)
+            nm = const_of(e.args[1], self.env, self)
             if isinstance(nm, str):
                 target = ast.copy_location(ast.Attribute(
                     value=e.args[0], attr=nm, ctx=ast.Store()), e)
@@ -1744,7 +1974,7 @@ class _Builder:
         reads_es = meth in GRAPH_READS_ALL
         for kw in e.keywords:
             if kw.arg in GRAPH_WEIGHT_KW:
-                c = const_of(kw.value, self.env)
+                c = const_of(kw.value, self.env, self)
                 if c is not None:
                     reads_es = True
         if reads_es:
@@ -1767,7 +1997,7 @@ class _Builder:
             argev = self.args_events(outer)
         names = None
         if nm is not None:
-            c = const_of(nm, self.env)
+            c = const_of(nm, self.env, self)
             if isinstance(c, str):
                 names = [c]
             elif isinstance(nm, ast.JoinedStr):
@@ -1776,7 +2006,7 @@ class _Builder:
                     if isinstance(v, ast.Constant):
                         pat += re.escape(str(v.value))
                     else:
-                        cv = const_of(v.value, self.env) if isinstance(
+                        cv = const_of(v.value, self.env, self) if isinstance(
                             v, ast.FormattedValue) else UNKNOWN
                         pat += re.escape(cv) if isinstance(cv, str) else r"\w+"
                 names = ("re", re.compile("^" + pat + "$"))
@@ -1798,9 +2028,11 @@ class _Builder:
                 # private helper analysed without its call-site constants: the
                 # specialised call sites carry the read; opaque here
                 return seq([self.expr(a) for a in g.args])
-            raise AnalysisError(
-                f"{self.f.module.relpath}:{g.lineno} unresolved getattr on "
-                f"{ast.unparse(obj)}")
+            # an attribute name computed at run time (a table of property
+            # names): a read of *some* cell; a cached method must not do that
+            # (rules_c01 answers "no verdict" then), everything else ignores it
+            return seq([self.expr(a) for a in g.args] +
+                       [self.ev("dynread", "?", g, name=ast.unparse(nm) if nm else "?")])
         if names is None:
             raise AnalysisError(
                 f"{self.f.module.relpath}:{g.lineno} unresolved dynamic "
@@ -1843,7 +2075,7 @@ class _Builder:
                 bound.add(p)
                 if a is None:
                     continue
-                c = const_of(a, self.env)
+                c = const_of(a, self.env, self)
                 if c is not UNKNOWN and isinstance(c, _HASHABLE_CONST):
                     env[p] = c
         else:
@@ -1854,7 +2086,7 @@ class _Builder:
                 has_kwsplat = True
                 continue
             bound.add(kw.arg)
-            c = const_of(kw.value, self.env)
+            c = const_of(kw.value, self.env, self)
             if c is not UNKNOWN and isinstance(c, _HASHABLE_CONST):
                 env[kw.arg] = c
         if not has_kwsplat:
